@@ -3,6 +3,7 @@
 package collect
 
 import (
+	"context"
 	"math"
 	"time"
 
@@ -37,6 +38,7 @@ func verifStressMachine(mode string, act, deact uint, minDur int64, clk *verifCl
 // reports); relief follows the documented hysteresis.
 func Harness_C15_machine() {
 	zz.MustCover("(*github.com/honeycombio/refinery/collect.StressRelief).Recalc",
+		"(*github.com/honeycombio/refinery/collect.StressRelief).onStressLevelUpdate",
 		"(*github.com/honeycombio/refinery/collect.StressRelief).clusterStressLevel",
 		"(*github.com/honeycombio/refinery/collect.StressRelief).ratio")
 	zz.Bound("recalc_steps", 3)
@@ -55,7 +57,11 @@ func Harness_C15_machine() {
 	// one peer report
 	peerLevel := []uint{0, 40, 95}[zz.Choose("peerLevel", 3)]
 	peerAt := now - verifDur("peerReportAge")
-	s.stressLevels["peer1"] = stressReport{key: "peer1", level: peerLevel, timestamp: zz.MonoTime(peerAt)}
+	// the report arrives the way peers' reports do, through the pubsub callback, at its own instant
+	peerMsg := newStressReliefMessage(peerLevel, "peer1").String()
+	clk.now = zz.MonoTime(peerAt)
+	s.onStressLevelUpdate(context.Background(), peerMsg)
+	clk.now = zz.MonoTime(now)
 	readings := []float64{0, 25, 81, 100} // sqrt(x/100)*100 = 0, 50, 90, 100
 	levels := []uint{0, 50, 90, 100}
 	stressed := false
@@ -63,6 +69,11 @@ func Harness_C15_machine() {
 	for step := 0; step < 3; step++ {
 		now += verifDur("dt")
 		clk.now = zz.MonoTime(now)
+		if (step == 1 || zz.Thorough()) && zz.NondetBool("peerReportsAgain") {
+			// the peer repeats its (unchanged) level: the report is as recent as its latest arrival
+			s.onStressLevelUpdate(context.Background(), peerMsg)
+			peerAt = now
+		}
 		li := zz.Choose("localLevel", 4)
 		met.vals[NUMERATOR_INCOMING_QUEUE] = readings[li]
 		local := s.Recalc()
